@@ -460,7 +460,8 @@ impl Display for StandardLinearModel {
 /// * `value` - Coefficient value
 /// * `is_first` - Whether this is the first term in an expression
 pub fn format_var(name: &str, value: f64, is_first: bool) -> String {
-    let sign = if float_lt(value, 0.0) {
+    // exact test: a coefficient of small magnitude still has its sign
+    let sign = if value < 0.0 {
         "- "
     } else if is_first {
         ""
